@@ -3,7 +3,7 @@
    returns a text, PostgreSQL reads one expression from it, and that expression is true on exactly the rows on which the query is
    true. Composition of C05 (text -> tree), Render succeeds / text / scanner / grammar / semantics (tree -> rows). *)
 Require Import Parser Render Api PgModel QuerySem SqlSem SqlFrag Shape Build Printer.
-Require Lex LexWs.
+Require Lex LexWs LexWsG.
 Require Import PrintedText SqlParse SqlSemProof SqlEndToEnd SqlSucceeds.
 From Coq Require Import List Ascii String ZArith Bool Lia.
 Import ListNotations.
@@ -12,7 +12,7 @@ Theorem to_postgres_on_printed_fragment_query :
   forall (o : oracle) (o2 : oracle2) (cl : Lex.classes),
   (forall r, Lex.is_space r = true -> Lex.is_alnum cl r = false) ->
   forall (t : qt) (ts : list tok) (a : ast),
-  wfq o t -> Forall (LexWs.lexes_alone cl) (map ltok (pr t)) ->
+  wfq o t -> Forall (LexWsG.lexes_clean cl) (map ltok (pr t)) ->
   tr (want o t) = Some (ts, a) ->
   side (want o t) = true -> text_ok (want o t) = true -> names_ok (want o t) = true -> leaves_ok o2 (want o t) = true ->
   exists s : string,
@@ -37,14 +37,14 @@ Definition ex_tree : qt :=
   QAnd (QFv (lit_tok "n") (tk TColon) (lit_tok "5"))
        (QNot (QPar (QOr (QFv (lit_tok "s") (tk TColon) (lit_tok "x")) (QFv (lit_tok "k") (tk TColon) (lit_tok "y"))))).
 Example premises_are_satisfiable :
-  wfq o_ex ex_tree /\ Forall (LexWs.lexes_alone LexWs.cl_ascii) (map ltok (pr ex_tree)) /\
+  wfq o_ex ex_tree /\ Forall (LexWsG.lexes_clean LexWs.cl_ascii) (map ltok (pr ex_tree)) /\
   (exists ts a, tr (want o_ex ex_tree) = Some (ts, a)) /\
   side (want o_ex ex_tree) = true /\ text_ok (want o_ex ex_tree) = true /\ names_ok (want o_ex ex_tree) = true /\ leaves_ok o2_ex (want o_ex ex_tree) = true /\
   text_of (pr ex_tree) = "n : 5 AND NOT ( s : x OR k : y ) "%string.
 Proof.
   split; [cbn [wfq ex_tree]; repeat split; try reflexivity; cbn; lia|].
   split.
-  { repeat (apply Forall_cons; [split; [reflexivity|split; [split; discriminate|split; [vm_compute; discriminate|reflexivity]]]|]). apply Forall_nil. }
+  { repeat (apply Forall_cons; [split; [split; discriminate|vm_compute; reflexivity]|]). apply Forall_nil. }
   split; [eexists; eexists; vm_compute; reflexivity|].
   repeat split; vm_compute; reflexivity.
 Qed.
